@@ -299,6 +299,16 @@ def check_angle(g, mats, r, lat, ph):
         sa, sb = r.choice(ANGLE_BAD)
     a, ar = mk(sa)
     b, br = mk(sb)
+    if kind in ("single", "same", "self1") and r.random() < 0.35:
+        # parallel / antiparallel pairs: the other vector is a scaled symmetry image of a self vector, so one
+        # cosine is +-1 up to rounding (arccos of 1 + 1 ulp is nan)
+        src = np.asarray(ar, float).reshape(-1, 3)
+        k = int(np.prod(sb))
+        br = [(r.choice([1.0, 2.0, -1.0, 0.5, -3.0]) * (mats[r.randrange(len(mats))] @ src[i % len(src)])).tolist()
+              for i in range(k)]
+        b = Miller(xyz=np.array(br, float).reshape(tuple(sb) + (3,)), phase=ph)
+        b.coordinate_format = fmt
+        st("angle/parallel-pair")
     rep = {"group": gname, "self": ar, "other": br, "self_shape": list(sa), "other_shape": list(sb), "fmt": fmt,
            "kind": kind}
     case = {"k": "ang", "group": gname, "ops": ops_json(g), "sshape": list(sa), "oshape": list(sb),
@@ -329,7 +339,10 @@ def check_angle(g, mats, r, lat, ph):
     ref = np.zeros(bs)
     for ix in np.ndindex(*bs):
         ref[ix] = min(ang(Ab[ix], w) for w in mats @ Bb[ix])
-    if got.shape != ref.shape or np.max(np.abs(got - ref)) > 5e-6:
+    if got.shape == ref.shape and not np.all(np.isfinite(got)):
+        fail("angle:not-finite", f"angle_with(use_symmetry=True) = {got.tolist()} is not finite; the minimum over the other "
+                                 f"vector's orbit is {ref.tolist()} (group {gname})", rep)
+    elif got.shape != ref.shape or np.max(np.abs(got - ref)) > 5e-6:
         sig = {"single": "angle:single", "same": "angle:elementwise", "self1": "angle:elementwise",
                "nd": "angle:broadcast"}[kind]
         fail(sig, f"angle_with(use_symmetry=True) = {got.tolist()} but the minimum over the other vector's orbit "
